@@ -12,7 +12,7 @@ from sa.ky import Lowered, key_sites
 from sa.pm import FuncInfo, call_name, norm, self_attr, walk_local_ordered
 from sa.report import Ob, rule
 
-from .common import attr_stores, ob, single_return_expr, strip_ret, traces
+from .common import attr_stores, find_locals, local_defs, ob, single_return_expr, strip_ret, traces
 
 REG = 'zeroconf._services.registry.ServiceRegistry'
 QH = 'zeroconf._handlers.query_handler.QueryHandler'
@@ -558,6 +558,87 @@ def addl(ctx: Any) -> List[Ob]:
     return obs
 
 
+@rule('C03.ADDRNSEC', 'D', expect_min=8)
+def addrnsec(ctx: Any) -> List[Ob]:
+    """Address questions: per address of the host -- the asked type becomes an answer unless the querier
+    knows it, the other type becomes an additional, and every type seen is recorded; afterwards -- with
+    answers, an NSEC for the missing types is attached as additional and each answer is stored; with no
+    answer and the asked type missing, the NSEC is the answer; otherwise nothing.  The missing types
+    are exactly {A, AAAA} minus the types seen."""
+    R = 'C03.ADDRNSEC'
+    prog = ctx.prog
+    f = prog.func(QH + '._add_address_answers')
+    cfg = cfg_of(f.node)
+    p_set, p_known, p_type = f.params[2], f.params[3], f.params[4]
+    obs: List[Ob] = []
+    inner = [n for n in cfg.nodes if n.kind == 'for' and n.in_loop]
+    if len(inner) < 1:
+        raise AnalysisError('anchor vanished: address loop in _add_address_answers')
+    addr_loop = next(n for n in inner if any(call_name(c) == '_dns_addresses' for c in n.calls()))
+    avar = norm(addr_loop.ast.target)
+    # roles of the locals
+    # roles from how the collections are consumed after the loop (robust against edits inside the loop)
+    add_v = sorted({norm(st.value) for st in walk_local_ordered(f.node) if isinstance(st, ast.Assign) and isinstance(st.targets[0], ast.Subscript) and norm(st.targets[0].value) == p_set and isinstance(st.value, ast.Name)})
+    ans_v = sorted({norm(lp.iter) for lp in walk_local_ordered(f.node) if isinstance(lp, ast.For) and isinstance(lp.iter, ast.Name) and any(isinstance(st, ast.Assign) and isinstance(st.targets[0], ast.Subscript) and norm(st.targets[0].value) == p_set and norm(st.targets[0].slice) == norm(lp.target) for st in lp.body)})
+    seen_v = sorted({norm(v.right) for vs in local_defs(f).values() for v in vs if v is not None and isinstance(v, ast.BinOp) and isinstance(v.op, ast.Sub) and prog.try_fold(f.module, v.left) == (True, frozenset({1, 28})) and isinstance(v.right, ast.Name)})
+    if len(ans_v) != 1 or len(add_v) != 1 or len(seen_v) != 1:
+        raise AnalysisError(f'_add_address_answers: cannot identify the answer / additional / seen-type collections ({ans_v}, {add_v}, {seen_v})')
+    ans_v, add_v, seen_v = ans_v[0], add_v[0], seen_v[0]
+
+    def eff(node: Any, evl: Any) -> List[Any]:
+        out = []
+        for c in fd.node_calls(node, evl):
+            nm = call_name(c)
+            if nm in ('append', 'add') and isinstance(c.func, ast.Attribute) and isinstance(c.func.value, ast.Name):
+                out.append({ans_v: 'ANSWER', add_v: 'ADDITIONAL', seen_v: 'SEEN'}.get(c.func.value.id, '?'))
+        return out
+
+    for same in (True, False):
+        for sup in (True, False):
+            atoms = {f'{avar}.type': 1, p_type: 1 if same else 28, '.suppresses()': sup}
+            oc, und = fd.run_paths(prog, f.module, cfg, atoms, eff, start=addr_loop, stop=lambda n: n is addr_loop, loop_bound=1, for_iter=lambda n, e: True)
+            got = {tuple(sorted(strip_ret(t))) for t in oc}
+            want = {'SEEN'} | ({'ADDITIONAL'} if not same else (set() if sup else {'ANSWER'}))
+            obs.append(ob(R, f, f'address of the {"asked" if same else "other"} type, querier {"knows" if sup else "does not know"} it', f'effects {sorted(want)}', got == {tuple(sorted(want))} and not und, f'got {sorted(got)} undecided {und}'))
+    # missing types
+    miss = find_locals(f, lambda v: isinstance(v, ast.BinOp) and isinstance(v.op, ast.Sub) and prog.try_fold(f.module, v.left) == (True, frozenset({1, 28})) and norm(v.right) == seen_v)
+    obs.append(ob(R, f, f'missing_types = _ADDRESS_RECORD_TYPES - {seen_v}', 'the missing types are {A, AAAA} minus the types the host has', len(miss) == 1))
+    if len(miss) != 1:
+        return obs
+    miss_v = miss[0]
+    after = [s_ for s_, lab in addr_loop.succ if lab == 'done']
+
+    def eff2(node: Any, evl: Any) -> List[Any]:
+        out = []
+        for c in fd.node_calls(node, evl):
+            if call_name(c) == '_dns_nsec':
+                out.append('NSEC')
+            if call_name(c) == 'add' and isinstance(c.func, ast.Attribute) and norm(c.func.value) == add_v:
+                out.append('->ADDITIONAL')
+        if node.kind == 'stmt' and isinstance(node.ast, ast.Assign) and isinstance(node.ast.targets[0], ast.Subscript) and norm(node.ast.targets[0].value) == p_set:
+            k = node.ast.targets[0].slice
+            out.append('STORE-NSEC-ANSWER' if isinstance(k, ast.Call) and call_name(k) == '_dns_nsec' else 'STORE-ANSWER')
+        return out
+
+    outer = [n for n in cfg.nodes if n.kind == 'for' and not n.in_loop][0]
+    for has_ans in (True, False):
+        for has_miss in (True, False):
+            for asked_missing in (True, False):
+                if asked_missing and not has_miss:
+                    continue
+                atoms = {ans_v: ['a'] if has_ans else [], miss_v: frozenset({28}) if has_miss else frozenset(), p_type: 28 if asked_missing else 1}
+                oc, und = fd.run_paths(prog, f.module, cfg, atoms, eff2, start=after[0], stop=lambda n: n is outer, loop_bound=1, for_iter=lambda n, e: True)
+                got = {tuple(strip_ret(t)) for t in oc}
+                if has_ans:
+                    want = (('NSEC', '->ADDITIONAL') if has_miss else ()) + ('STORE-ANSWER',)
+                elif asked_missing:
+                    want = ('NSEC', 'STORE-NSEC-ANSWER')
+                else:
+                    want = ()
+                obs.append(ob(R, f, f'answers={"yes" if has_ans else "none"}, missing types={"yes" if has_miss else "none"}, asked type missing={asked_missing}', f'effects {want}', got == {want}, f'got {sorted(got)} undecided {und}'))
+    return obs
+
+
 @rule('C03.SUPPRESS', 'D', expect_min=2)
 def suppress(ctx: Any) -> List[Ob]:
     """Known-answer suppression threshold as a linear form: a record is
@@ -631,7 +712,7 @@ EXPLANATION = (
     'C03.DISPATCH (decided): finite-domain decision table of the question dispatcher (9 question types x 6 kinds of name) and of the '
     'answering arms. C03.TTLCLASS (decided): field table of the record builders (TTL source, class/cache-flush bit, type, owner). '
     'C03.MEMO (necessary): memo slots discovered; cleared before (re)insertion; goodbye copies never memoised. C03.ADDL (necessary): '
-    'additionals attached at one site under a membership test. C03.SUPPRESS (decided): half-TTL threshold as a linear form. '
+    'additionals attached at one site under a membership test. C03.ADDRNSEC (decided): decision tables of the address-answer routine (answer / additional / NSEC). C03.SUPPRESS (decided): half-TTL threshold as a linear form. '
     'Not decided: exactness of the answer set for arbitrary registries and histories [X].'
 )
-RULES = [index, keys, dispatch, ttlclass, memo, addl, suppress]
+RULES = [index, keys, dispatch, ttlclass, memo, addl, addrnsec, suppress]
